@@ -157,10 +157,14 @@ pub fn gen_anns(rng: &mut Rng) -> Vec<AnnDoc> {
         .map(|_| {
             let name = format!("@{}", rng.pick(&["nullable", "utf8InCpp", "Ann_1", "JavaOnly", "in", "List"]));
             let params = if rng.chance(1, 2) {
-                let k = rng.below(3);
-                let ps = (0..k)
-                    .map(|_| (ident(rng), if rng.chance(2, 3) { Some(gen_scalar_value(rng)) } else { None }))
-                    .collect::<Vec<_>>();
+                let k = if rng.chance(1, 4) { rng.range(3, 5) } else { rng.below(3) };
+                let mut ps: Vec<(String, Option<String>)> = Vec::new();
+                for _ in 0..k {
+                    // one key in three repeats an earlier key of the same annotation (with or without a value: the map
+                    // keeps what was written last, a valueless repeat included)
+                    let key = if !ps.is_empty() && rng.chance(1, 3) { rng.pick(&ps).0.clone() } else { ident(rng) };
+                    ps.push((key, if rng.chance(2, 3) { Some(gen_scalar_value(rng)) } else { None }));
+                }
                 Some((ps, rng.chance(1, 3)))
             } else {
                 None
